@@ -174,3 +174,102 @@ def tree_shape_problems(doc):
                 if c.parent is not n:
                     probs.append(f'child of ({si},{ni}) has a different parent link')
     return probs
+
+
+# ---- the same export through ONE long-lived ExportOptions object ------------------------------------------------------
+OPT_FIELDS = ('spine_types', 'token_categories', 'from_measure', 'to_measure', 'kern_type', 'instruments',
+              'show_measure_numbers', 'spine_ids')
+
+
+def _freeze(v):
+    if isinstance(v, (set, frozenset)):
+        return ('set', tuple(sorted(map(str, v))))
+    if isinstance(v, (list, tuple)):
+        return (type(v).__name__, tuple(map(str, v)))
+    return v
+
+
+class SharedOptions:
+    """One ExportOptions object that lives as long as a run.  Before every use its fields are set to what
+    kernpy's own keyword parser gives for the keywords of dumps(); a container field whose new value equals the current
+    one keeps the current OBJECT (a caller who holds a selection in a variable).  The export through it must equal the
+    export through keywords, and the object must come back as it was handed in."""
+
+    def __init__(self):
+        self.o = kp.ExportOptions()
+        self.uses = 0
+        self.forms = 0
+
+    def export(self, doc, **kw):
+        """-> (text, exception, problem or None).  kw in the vocabulary of dumps()."""
+        from kernpy.core.generic import Generic
+        kw2 = dict(kw)
+        if 'encoding' in kw2:
+            kw2['kern_type'] = kw2.pop('encoding')
+        fresh = Generic.parse_options_to_ExportOptions(**kw2)
+        for f in OPT_FIELDS:
+            new = getattr(fresh, f)
+            cur = getattr(self.o, f, None)
+            if isinstance(new, (set, frozenset, list, tuple)):
+                same = isinstance(cur, (set, frozenset, list, tuple)) and (
+                    set(cur) == set(new) if isinstance(new, (set, frozenset)) else list(cur) == list(new))
+                if same:
+                    continue        # the caller keeps the selection in a variable: same object as in the previous use
+                # a new selection: the container form rotates (ExportOptions documents lists; sets and tuples are accepted alike)
+                self.forms += 1
+                if f == 'token_categories':
+                    items = sorted(new, key=lambda c: c.name)
+                    new = [set, list, tuple][self.forms % 3](items)
+                elif isinstance(new, (list, tuple)):
+                    new = [list, tuple][self.forms % 2](new)
+            setattr(self.o, f, new)
+        before = {f: _freeze(getattr(self.o, f)) for f in OPT_FIELDS}
+        self.uses += 1
+        try:
+            out, exc = kp.export(doc, self.o), None
+        except Exception as e:  # noqa
+            out, exc = None, e
+        after = {f: _freeze(getattr(self.o, f)) for f in OPT_FIELDS}
+        changed = [f for f in OPT_FIELDS if before[f] != after[f]]
+        prob = None
+        if changed:
+            prob = f'the export changed the caller\'s options object: {", ".join(f"{f}: {before[f]!r} -> {after[f]!r}"[:160] for f in changed)}'
+            # hand the next use a clean object, so that one mutation is reported once per use and not inherited
+            self.o = kp.ExportOptions()
+        return out, exc, prob
+
+
+def same_outcome(a_text, a_exc, b_text, b_exc):
+    if (a_exc is None) != (b_exc is None):
+        return False
+    if a_exc is not None:
+        return type(a_exc) is type(b_exc)
+    return a_text == b_text
+
+
+_SHARED = None
+
+
+def shared_options_check(ctx, doc, kw, ref_text, ref_exc, case, key='options-object'):
+    """The export `kw` of `doc` again through the process-wide long-lived ExportOptions object (kp.export): same outcome as the
+    keyword call (ref_text / ref_exc), options object unchanged by the call."""
+    global _SHARED
+    if _SHARED is None:
+        _SHARED = SharedOptions()
+    ctx.mon('exports_through_shared_options_object')
+    try:
+        out, exc, prob = _SHARED.export(doc, **kw)
+    except Exception as e:  # noqa  (kernpy's keyword parser itself refused the keywords: nothing to compare)
+        ctx.mon(f'shared_options_keywords_refused:{type(e).__name__}')
+        return True
+    ok = True
+    if prob:
+        ctx.violation(key, prob, dict(case, options=str(kw)))
+        ok = False
+    if not same_outcome(ref_text, ref_exc, out, exc):
+        ctx.violation(key, f'export through a reused ExportOptions object ({_SHARED.uses} uses so far) '
+                      f'{"raised " + type(exc).__name__ + ": " + str(exc)[:80] if exc is not None else "returned " + str(len(out)) + " chars"}, '
+                      f'the keyword call {"raised " + type(ref_exc).__name__ if ref_exc is not None else "returned " + str(len(ref_text)) + " chars"} '
+                      f'for {str(kw)[:200]}', dict(case, options=str(kw)))
+        ok = False
+    return ok
